@@ -42,7 +42,7 @@ theorem minPositions_fwd (sc : Nat → Nat) (d n : Nat) (hn : 1 ≤ n) :
   simpa using this
 
 /-- the interval built from a closed entry covering k-mer starts `s..e` -/
-theorem ivValid_of_IvOK (seq : Array Nat) (score : List Nat → Nat) (k p s e : Nat) (mn : MinPos) (len : Nat)
+theorem ivValid_of_IvOK (seq : Array Compress.Base) (score : Compress.Seq → Nat) (k p s e : Nat) (mn : MinPos) (len : Nat)
     (hp : 1 ≤ p) (hpk : p ≤ k) (h : IvOK (fun q => score (window seq p q)) (k - p) s e mn) (hlen : len = e + k - s) :
     IvValid seq (fun q => score (window seq p q)) k p ⟨s, len, mn.pos, window seq p mn.pos⟩ := by
   obtain ⟨_, hse, lo, hi, hmin⟩ := h
